@@ -24,6 +24,7 @@ func (c04) Rule() string {
 		"Cache-hostile sessions: pure/printing/failing functions, functions reading and writing globals, reading constants, calling other functions and closures passed as arguments, recursion, closure factories, " +
 		"0..6 arguments (hashable, unhashable, >4), called repeatedly with equal and different arguments; between calls globals are mutated, functions/callees/lambdas are redefined, constants are deleted and re-bound; " +
 		"non-determinism comes from the harness extension verif_tick() (DontCache) called directly and through wrappers; plus typed-grammar programs split into inputs and replayed twice. " +
+		"Extension sweep: every registered extension x 11 argument shapes wrapped in a function and called before and after the world outside the interpreter changes (standard input read to its end, images drawn on, files saved, time passing), in three fresh child processes (cache off, on, off; calls whose answers differ between the two cache-off runs are non-deterministic and not compared). " +
 		"non-trivial = the cache-enabled run had >=1 cache hit (hook counter); distinct = distinct session texts."
 }
 func (c04) NumBatches(tier string) int {
